@@ -275,5 +275,9 @@ class ZMQEventLoop(EventLoop):
                 self._did_something = True
 
         for queue in ready:
-            self._queue_callbacks[queue]()
+            callback = self._queue_callbacks.get(queue)
+            if callback is None:
+                # removed by a callback that ran earlier in this iteration
+                continue
+            callback()
             self._did_something = True
